@@ -171,6 +171,9 @@ def main():
     for name, text, planted in gfam.duplicate_kinds():
         for t in TOOLS:
             cases.append({'tool': t, 'cls': 'duplicate-kinds', 'detail': name, 'text': text})
+    for name, text, planted in gfam.cyclic_subtypes():
+        for t in TOOLS:
+            cases.append({'tool': t, 'cls': 'cyclic-subtypes', 'detail': name, 'text': text})
     for c in gfam.diagnostic_catalogue():
         if 'extra_files' not in c:
             for t in TOOLS:
